@@ -89,6 +89,8 @@ def post_explore(ctx, res, pids, opts):
     counts["initial_rows"] += check_initial(lambda k, d: rep(k, d), spec, ctx.scenario, ctx.env, Layout(spec))
     env1 = NASimEnv(ctx.scenario, fully_obs=False, flat_actions=True, flat_obs=True)
     env2 = NASimEnv(ctx.scenario, fully_obs=False, flat_actions=True, flat_obs=False)
+    env3 = NASimEnv(ctx.scenario, fully_obs=True, flat_actions=True, flat_obs=False)
+    counts["fully_observable_obs"] = 0
     shape = (lay.nhosts, lay.width)
     hnm = ctx.scenario.host_num_map
     names = set(lay.os) | set(lay.services) | set(lay.processes)
@@ -166,6 +168,26 @@ def post_explore(ctx, res, pids, opts):
                     rep("Observation.get_readable_disagrees_with_documented_layout",
                         {"row_fields": bad, "aux": {k: bool(v) for k, v in aux_obs.items()}, "action_index": a_idx}, key)
                     break
+                # the fully observable observation carries every host's complete row (values of any sign included):
+                # its readable decoding must give back exactly the array's content as well
+                env3.current_state = s
+                seam.arm(dv)
+                o3 = np.asarray(env3.step(action)[0])
+                counts["fully_observable_obs"] += 1
+                if o3.shape != (lay.nhosts + 1, lay.width):
+                    rep("observation_shape_differs_from_documented_size", {"shape_2d_fully_obs": list(o3.shape), "action_index": a_idx}, key)
+                    break
+                host3, _ = Observation.from_numpy(o3, shape).get_readable()
+                bad3 = None
+                for i, rd in enumerate(host3):
+                    p = readable_matches(lay, o3[i], rd)
+                    if p:
+                        bad3 = (i, p)
+                        break
+                if bad3:
+                    rep("Observation.get_readable_disagrees_with_documented_layout",
+                        {"row_fields": bad3, "fully_obs": True, "action_index": a_idx, "row": o3[bad3[0]].tolist()}, key)
+                    break
     return counts
 
 
@@ -207,6 +229,35 @@ def generated_initial_states(tier):
                 if len(samples) < 6:
                     samples.append({"generated": name, "seed": seed, "enlarged_bounds": enlarge,
                                     "tensor_shape": list(env.current_state.tensor.shape)})
+    # the SAME host definitions under other address-space bounds: a second Scenario built around the first one's
+    # scenario dictionary (shared Host objects - hosts are configuration), its environment built right after the
+    # first one's; bounds with the same and with another row width
+    from nasim.scenarios import Scenario
+    import nasim.scenarios.utils as u
+    for name, seed in (("tiny-gen", 0), ("small-gen", 1), ("tiny-gen-rgoal", 2)):
+        params = dict(AVAIL_GEN_BENCHMARKS[name]); params["seed"] = seed
+        sc1 = nasim.generate_scenario(**params)
+        b = tuple(int(x) for x in sc1.address_space_bounds)
+        for nb in ((b[0] + 1, b[1]), (b[0] + 2, b[1] + 1), (b[0] + 1, b[1] + 1), (b[0] + 3, b[1] + 2)):
+            # first environment with bounds of the SAME sum as nb (one more subnet column, one less host column) ...
+            first = (nb[0] - 1, nb[1] + 1)
+            for bounds_pair in ((first, nb), (nb, first)):
+                envs = []
+                for bb in bounds_pair:
+                    d = dict(sc1.scenario_dict); d[u.ADDRESS_SPACE_BOUNDS] = bb
+                    sc2 = Scenario(d, name="verif")
+                    spec2 = spec_from_scenario(sc2, name=f"{name}-s{seed}-rebound{bb}")
+                    if [a for a, h in spec2["hosts"].items() if not isinstance(h["os"], str)]:
+                        break
+                    env2 = NASimEnv(sc2)
+                    envs.append(env2)
+                    n_scen += 1
+
+                    def rep(kind, detail, _name=name, _seed=seed, _bp=bounds_pair, _bb=bb):
+                        viol.append({"property": "C09", "kind": kind, "engine": "rebound_initial",
+                                     "generator": {"benchmark": _name, "seed": _seed, "bounds_in_order": [list(x) for x in _bp],
+                                                   "failing_bounds": list(_bb)}, "detail": detail})
+                    n_rows += check_initial(rep, spec2, sc2, env2, Layout(spec2))
     # all nine shipped files (up to 16 hosts, host ids >= 10, several public subnets): initial state vs file
     from .family import SHIPPED_ALL, shipped_path, shipped_spec
     for n in SHIPPED_ALL:
@@ -260,6 +311,22 @@ def replay(pid, rec):
         sc = nasim.load_scenario(shipped_path(n), name=n)
         out = []
         check_initial(lambda k, d: out.append({"kind": k, "detail": d}), shipped_spec(n), sc, NASimEnv(sc), Layout(shipped_spec(n)))
+        return out
+    if rec.get("engine") == "rebound_initial":
+        nasim = import_nasim()
+        from nasim.envs import NASimEnv
+        from nasim.scenarios import Scenario
+        from nasim.scenarios.benchmark import AVAIL_GEN_BENCHMARKS
+        import nasim.scenarios.utils as u
+        g = rec["generator"]
+        params = dict(AVAIL_GEN_BENCHMARKS[g["benchmark"]]); params["seed"] = g["seed"]
+        sc1 = nasim.generate_scenario(**params)
+        out = []
+        for bb in g["bounds_in_order"]:
+            d = dict(sc1.scenario_dict); d[u.ADDRESS_SPACE_BOUNDS] = tuple(bb)
+            sc2 = Scenario(d, name="verif")
+            spec2 = spec_from_scenario(sc2)
+            check_initial(lambda k, dd: out.append({"kind": k, "detail": dd}), spec2, sc2, NASimEnv(sc2), Layout(spec2))
         return out
     if rec.get("engine") == "generated_initial":
         nasim = import_nasim()
